@@ -16,6 +16,8 @@ Clauses(ev) ==
   THEN [TerminationPredicateIsGymnasiums      |-> ev.term = R!Terminal(ev.env, ev),
         RewardOfEveryTransitionIsGymnasiums   |-> ev.rew_m = R!Reward(ev.env, ev),
         LeftWallStopsTheCar                   |-> R!WallRule(ev.env, ev)]
+  ELSE IF ev.ev = "limits"
+  THEN [StateLimitsAreGymnasiums |-> ev.xout = R!LimitX(ev.xin) /\ ev.vout = R!LimitV(ev.xin, ev.vin)]
   ELSE [CaseIsNamed |-> ev.ev \in {"reset", "mujoco"}]
 Failed(ev) == LET c == Clauses(ev) IN {n \in DOMAIN c : ~c[n]} \cup {n \in DOMAIN ev.atoms : ~ev.atoms[n]}
 TCheck == /\ l = 1
